@@ -8,6 +8,11 @@ NOT_APPLICABLE = {
     'C03': 'C++ exception capture/transport/rethrow: CBMC\'s usable front end here is C, extraction drops try/catch, so no contract can mention the behaviour (DESIGN.md §6)',
 }
 CLAIMS = {
+    'C09': {
+        'technique': 'CBMC loop-free full-domain harnesses on the ticket arithmetic + rely/guarantee proofs (monotone counters, Skolem claim of another thread) with dfcc loop contracts on the ticket-claim loops sliced from concurrent_queue.h',
+        'text': 'For all 2^64 tickets: 8 consecutive tickets go to 8 different lanes, k and k+8 meet in the same lane in consecutive slots, (lane, turn) determines the ticket, slot < items_per_page <= 32. For any number of threads under SC: pop tickets are unique and only taken while tail - ticket > 0; empty is reported only from an instant with no item; bounded push tickets are unique and only taken while size < capacity; full is reported only from an instant with size() >= capacity (negative sizes are never full).',
+        'note': 'Trusted: micro_queue push/pop (lane turnstiles, pages) as stubs, SC atomics, counters do not wrap within 2^62. Not decided: linearizability proper, page hand-over, invalid-entry accounting on exceptions, blocking push/pop/abort.',
+    },
     'C18': {
         'technique': 'CBMC loop-free harnesses on the tbbmalloc entry points sliced from frontend.cpp with allocation callees as may-fail stubs; scalable_calloc\'s multiply/divide overflow test proved for size_t bound to 8- and 16-bit types (labelled bounded) plus multiplier-free 64-bit facts',
         'text': 'scalable_posix_memalign / aligned_malloc / aligned_realloc / realloc: illegal alignment or size gives EINVAL/NULL without touching *memptr or allocating; a failing callee gives ENOMEM/NULL, nothing freed; size-0 and NULL-pointer cases as documented, for all argument values. scalable_calloc: NULL/ENOMEM iff nobj*size overflows, exact request otherwise, zero-fill over exactly the request - bounded: 8/16-bit size_t; at 64 bits only the control-flow facts that need no multiplier.',
